@@ -13,8 +13,8 @@ import (
 )
 
 func init() {
-	props["C10"] = &propDef{run: runC10, explanation: "Partial (thin): the list algebra itself (insert-or-replace keeping order, set union/difference, RFC 6902 semantics, id uniqueness) is value-level and NOT decided. Decided statically: (T1) the action tables agree — keys of patch.actionConfig = case constants of patchvalidator.Validate = case constants of the composer's dispatch = the eight patch.Action constants, each composer case calls its own handler and anything else is an error; (E1) handler write-sets — the key/service/also-known-as handlers write exactly their own member of the working document, replace builds a fresh document with exactly the two members taken from the replace document's publicKeys/services, ietf-json-patch returns the library output re-parsed; (P1) ApplyPatches is a left fold: deep copy of the document parameter, then one loop over the patches parameter in index order threading the result, the final result returned; (X2) sibling decision skeletons — for every append/update site in a handler's loop, which collection is iterated (document vs patch value), which collection the membership set is built from, the polarity of the membership test and what is appended; the three remove-handlers, the two keyed add-handlers and add-also-known-as must each match the documented skeleton (this catches an inverted keep condition, a dropped replace branch, a wrong source collection). Every handler loop visits every element: the only way out of a top-level loop body is an error return (a break drops the remaining entries). RFC 6902 operations are a left fold of the library's Apply over the document bytes (nothing else produces the running bytes, every successful exit returns them), and the applying function refuses only what the library refuses or a copy of a value into itself. Every list handler writes the rebuilt list back into the document on every accepting path."}
-	props["C14"] = &propDef{run: runC14, explanation: "Partial (thin): document→patches→document and bytes round trips are value-level and NOT decided. Decided statically: (X1) each of the eight patch constructors stores ActionKey = its action and exactly one value under actionConfig[action]; (G1) FromBytes succeeds only across GetAction and GetValue of the decoded patch; GetValue looks up actionConfig[own action] and requires that member; GetAction admits only string-typed actions present in actionConfig; (T1) PatchesFromDocument maps publicKey / service / alsoKnownAs to their constructors and every other member to one combined ietf-json-patch 'add /<name>', visits members in sorted order, and succeeds only for documents without an id; (P1) Bytes() serialises the receiver itself; (J1) in the functions reachable from PatchesFromDocument no list separator is written under a loop-index test while the elements are written conditionally (hand-assembled JSON). (K2) every JSON decode in the patch and document packages is a plain encoding/json.Unmarshal; (X3) the json-patch fold and closed-refusal rules of C10. (K3) format strings in pkg/patch are constants; the validator's duplicate test for also-known-as URIs compares the URI's own text."}
+	props["C10"] = &propDef{run: runC10, explanation: "Partial (thin): the list algebra itself (insert-or-replace keeping order, set union/difference, RFC 6902 semantics, id uniqueness) is value-level and NOT decided. Decided statically: (T1) the action tables agree — keys of patch.actionConfig = case constants of patchvalidator.Validate = case constants of the composer's dispatch = the eight patch.Action constants, each composer case calls its own handler and anything else is an error; (E1) handler write-sets — the key/service/also-known-as handlers write exactly their own member of the working document, replace builds a fresh document with exactly the two members taken from the replace document's publicKeys/services, ietf-json-patch returns the library output re-parsed; (P1) ApplyPatches is a left fold: deep copy of the document parameter, then one loop over the patches parameter in index order threading the result, the final result returned; (X2) sibling decision skeletons — for every append/update site in a handler's loop, which collection is iterated (document vs patch value), which collection the membership set is built from, the polarity of the membership test and what is appended; the three remove-handlers, the two keyed add-handlers and add-also-known-as must each match the documented skeleton (this catches an inverted keep condition, a dropped replace branch, a wrong source collection). Every handler loop visits every element: the only way out of a top-level loop body is an error return (a break drops the remaining entries). RFC 6902 operations are a left fold of the library's Apply over the document bytes (nothing else produces the running bytes, every successful exit returns them), and the applying function refuses only what the library refuses or a copy of a value into itself. Every list handler writes the rebuilt list back into the document on every accepting path. The copy guard lets an operation through exactly when from has at least as many tokens as path (three orderings)."}
+	props["C14"] = &propDef{run: runC14, explanation: "Partial (thin): document→patches→document and bytes round trips are value-level and NOT decided. Decided statically: (X1) each of the eight patch constructors stores ActionKey = its action and exactly one value under actionConfig[action]; (G1) FromBytes succeeds only across GetAction and GetValue of the decoded patch; GetValue looks up actionConfig[own action] and requires that member; GetAction admits only string-typed actions present in actionConfig; (T1) PatchesFromDocument maps publicKey / service / alsoKnownAs to their constructors and every other member to one combined ietf-json-patch 'add /<name>', visits members in sorted order, and succeeds only for documents without an id; (P1) Bytes() serialises the receiver itself; (J1) in the functions reachable from PatchesFromDocument no list separator is written under a loop-index test while the elements are written conditionally (hand-assembled JSON). (K2) every JSON decode in the patch and document packages is a plain encoding/json.Unmarshal; (X3) the json-patch fold and closed-refusal rules of C10. (K3) format strings in pkg/patch are constants; the validator's duplicate test for also-known-as URIs compares the URI's own text. Every constructor stores its value with a generic-JSON dynamic type."}
 }
 
 func (c *Ctx) actionConsts() map[string]string {
@@ -205,81 +205,7 @@ func runC10(c *Ctx) {
 	c.Min("C10.E1", 8)
 
 	// ---- P1 left fold
-	ap := c.Method(pComposer, "DocumentComposer", "ApplyPatches")
-	if ap == nil {
-		c.Unresolved("C10.P1", "ApplyPatches")
-	} else {
-		c.Analysed(ap)
-		aps := callsTo(ap, apf)
-		okFold, okCopy := false, false
-		var copyFn *ssa.Function
-		if len(aps) == 1 {
-			a0 := aps[0].Call.Args[0]
-			phi, isPhi := a0.(*ssa.Phi)
-			// the running result kept in a local cell (its address was handed to json.Unmarshal): loads and stores
-			// instead of a φ
-			if ld, isLd := a0.(*ssa.UnOp); isLd && ld.Op == token.MUL {
-				if al, isAl := ld.X.(*ssa.Alloc); isAl {
-					stepOnly := true
-					for _, r := range *al.Referrers() {
-						if st, isS := r.(*ssa.Store); isS && st.Addr == ssa.Value(al) {
-							if k, isK := st.Val.(*ssa.Const); isK && k.IsNil() {
-								continue
-							}
-							if st.Val != extractOf(aps[0], 0) {
-								stepOnly = false
-							}
-						}
-					}
-					if src, fn, ok := c.jsonRoundTripCell(ap, al); ok && src == "$1" && stepOnly {
-						okCopy, copyFn = true, fn
-					}
-					if stepOnly && c.Path(aps[0].Call.Args[1], nil) == "$2[ι]" && ascendingFromZero(aps[0].Call.Args[1]) {
-						okFold = true
-						for _, r := range successReturns(ap) {
-							if l2, isL2 := r.Results[0].(*ssa.UnOp); !isL2 || l2.X != ssa.Value(al) {
-								okFold = false
-							}
-						}
-					}
-				}
-			}
-			if isPhi && len(phi.Edges) == 2 {
-				// one edge is the previous step's result, the other the starting value: a JSON round trip of the document parameter
-				var start ssa.Value
-				n := 0
-				for _, e := range phi.Edges {
-					if e == extractOf(aps[0], 0) {
-						n++
-					} else {
-						start = e
-					}
-				}
-				if n == 1 && start != nil {
-					if src, fn, ok := c.jsonRoundTripOf(ap, start, nil, 0); ok && src == "$1" {
-						okCopy, copyFn = true, fn
-					}
-					if c.Path(aps[0].Call.Args[1], nil) == "$2[ι]" && ascendingFromZero(aps[0].Call.Args[1]) {
-						okFold = true
-						for _, r := range successReturns(ap) {
-							if r.Results[0] != ssa.Value(phi) {
-								okFold = false
-							}
-						}
-					}
-				}
-			}
-		}
-		c.Check("C10.P1", "fold:starts-from-deep-copy", okCopy, ap.Pos(), "the fold starts from a JSON round trip (json.Unmarshal of json.Marshal) of the document parameter, made in ApplyPatches or in a helper")
-		c.Check("C10.P1", "fold:threads-result-in-index-order", okFold, ap.Pos(), "one loop over the patches parameter in index order; each step receives the previous result; the last result is returned")
-		c.CheckGuardLoop("C10.P1", "fold:handler-error-aborts", ap, nil, callTo("applyPatch ok", apf))
-		jsonU := c.ExtFn("encoding/json", "Unmarshal")
-		if copyFn != nil && jsonU != nil {
-			c.CheckGuard("C10.P1", "deepCopy:decode-error-propagated", copyFn, nil, callTo("json.Unmarshal of the encoded document", jsonU))
-		} else {
-			c.Check("C10.P1", "deepCopy:decode-error-propagated", false, ap.Pos(), "no JSON round trip of the document found")
-		}
-	}
+	c.applyPatchesFoldRule("C10.P1")
 	c.jsonPatchFoldRule("C10.P1")
 	c.Min("C10.P1", 6)
 
@@ -319,8 +245,59 @@ func runC14(c *Ctx) {
 		_, hasVal := ups[wantKey]
 		ok := n == 2 && ups["action"] == a && hasVal
 		c.Check("C14.X1", ctor[a], ok && okRet, f.Pos(), fmt.Sprintf("%s stores action=%q and exactly one value under %q (stores: %v)", ctor[a], ups["action"], wantKey, keysOf(ups)))
+		// the value is stored in the shape a decoded patch has it (generic JSON: []interface{} / map[string]interface{}):
+		// the validators and the composer take the value apart by those types, so a typed slice is "not an array"
+		// … and it is what the caller wrote: between the input text and the stored value there is decoding and type
+		// conversion only — no library that rewrites content (a URI re-serialised by net/url comes back percent-encoded,
+		// lower-cased or without an empty fragment)
+		{
+			ext := map[string]bool{}
+			seenF := map[*ssa.Function]bool{}
+			var scan func(g *ssa.Function, d int)
+			scan = func(g *ssa.Function, d int) {
+				if g == nil || seenF[g] || d > 3 || g.Blocks == nil {
+					return
+				}
+				seenF[g] = true
+				forEachInstr(g, func(in ssa.Instruction) {
+					cl, isC := in.(*ssa.Call)
+					if !isC {
+						return
+					}
+					h := cl.Call.StaticCallee()
+					if h == nil {
+						return
+					}
+					if inModule(h) {
+						// validation helpers of the constructor do not feed the value; helpers of pkg/patch and the document
+						// decoders may
+						if strings.HasSuffix(pkgPathOf(h), "/patch") || strings.HasSuffix(pkgPathOf(h), "/document") {
+							scan(h, d+1)
+						}
+						return
+					}
+					if o := h.Origin(); o != nil {
+						h = o
+					}
+					ext[pkgPathOf(h)] = true
+				})
+			}
+			scan(f, 0)
+			var foreign []string
+			for p := range ext {
+				switch p {
+				case "encoding/json", "fmt", "errors", "sort", "slices", "maps":
+				default:
+					foreign = append(foreign, p)
+				}
+			}
+			sort.Strings(foreign)
+			c.Check("C14.X1", ctor[a]+":value-only-decoded", len(foreign) == 0, f.Pos(), fmt.Sprintf("%s builds its value with decoding and conversion only (other libraries in its call tree: %v)", ctor[a], foreign))
+		}
+		vt := ups["type:"+wantKey]
+		c.Check("C14.X1", ctor[a]+":generic-json-value", vt == "[]interface{}" || vt == "map[string]interface{}" || vt == "[]any" || vt == "map[string]any" || vt == "json", f.Pos(), fmt.Sprintf("%s stores a value of dynamic type %q under %q (expected generic JSON, as json.Unmarshal produces)", ctor[a], vt, wantKey))
 	}
-	c.Min("C14.X1", 8)
+	c.Min("C14.X1", 24)
 
 	// ---- K3 format strings in the patch package are constants: caller-supplied JSON never takes the place of a format
 	// (a '%' in a service endpoint would be read as a verb)
@@ -384,17 +361,33 @@ func runC14(c *Ctx) {
 		// GetValue
 		act := short(ga.String()) + "($0)#0"
 		c.CheckGuard("C14.G1", "GetValue:own-action", gv, nil, callTo("GetAction()", ga, pathIs("$0")))
-		c.CheckGuard("C14.G1", "GetValue:config-lookup", gv, nil, &GCheck{Name: "actionConfig[action] ok", MatchOK: func(c *Ctx, v ssa.Value, env Env) bool {
+		// the action GetAction hands back is a key of actionConfig (the lookup's index is the value it returns): a plain
+		// actionConfig[action] in GetValue is then a lookup that cannot miss
+		gaRet := ""
+		for _, r := range successReturns(ga) {
+			gaRet = c.Path(r.Results[0], nil)
+		}
+		gaMember, _, gaN := c.Guard(ga, nil, &GCheck{Name: "actionConfig[returned action] ok", MatchOK: func(c *Ctx, v ssa.Value, env Env) bool {
+			lk, ok := v.(*ssa.Lookup)
+			return ok && c.Path(lk.X, env) == "global:patch.actionConfig" && c.Path(lk.Index, env) == gaRet
+		}}, nil)
+		noOK := func(s string) string { return strings.ReplaceAll(s, "]#0", "]") }
+		cfgLookup := &GCheck{Name: "actionConfig[action] ok", MatchOK: func(c *Ctx, v ssa.Value, env Env) bool {
 			lk, ok := v.(*ssa.Lookup)
 			return ok && c.Path(lk.X, env) == "global:patch.actionConfig" && c.Path(lk.Index, env) == act
-		}})
+		}}
+		if gaMember && gaN > 0 {
+			c.CheckGuard("C14.G1", "GetValue:config-lookup", gv, nil, anyOf("actionConfig[action] ok, or the action is the one GetAction vouches for", cfgLookup, callTo("GetAction()", ga, pathIs("$0"))))
+		} else {
+			c.CheckGuard("C14.G1", "GetValue:config-lookup", gv, nil, cfgLookup)
+		}
 		c.CheckGuard("C14.G1", "GetValue:member-present", gv, nil, &GCheck{Name: "patch[valueKey] ok", MatchOK: func(c *Ctx, v ssa.Value, env Env) bool {
 			lk, ok := v.(*ssa.Lookup)
-			return ok && c.Path(lk.X, env) == "$0" && c.Path(lk.Index, env) == "global:patch.actionConfig["+act+"]#0"
+			return ok && c.Path(lk.X, env) == "$0" && noOK(c.Path(lk.Index, env)) == "global:patch.actionConfig["+act+"]"
 		}})
 		okRet := true
 		for _, r := range successReturns(gv) {
-			if c.Path(r.Results[0], nil) != "$0[global:patch.actionConfig["+act+"]#0]#0" {
+			if p := c.Path(r.Results[0], nil); !strings.HasSuffix(p, "]#0") || noOK(p) != "$0[global:patch.actionConfig["+act+"]]" {
 				okRet = false
 			}
 		}
@@ -480,7 +473,49 @@ func runC14(c *Ctx) {
 	// ---- X2 the patches produced from a document are applied by the add-handlers: their decision skeletons
 	// (insert-or-replace by id within the handler's own list) are part of this check
 	c.composerSkeletons("C14.X2", c.composerHandlers())
-	c.Min("C14.X2", 12)
+	// what the add / replace handlers put into the document are the patch's own key and service objects: the JSON-LD
+	// object of each entry goes into the rebuilt list as it is, through no function that could reshape it (a copying
+	// helper that turns an empty nested list into null changes what comes back from document -> patches -> document)
+	{
+		n := 0
+		var bad []string
+		for _, f := range c.Funcs {
+			if pkgPathOf(f) != modPkg+pComposer {
+				continue
+			}
+			forEachInstr(f, func(in ssa.Instruction) {
+				cl, ok := in.(*ssa.Call)
+				if !ok || cl.Call.StaticCallee() == nil || cl.Call.StaticCallee().Name() != "JSONLdObject" || !strings.HasSuffix(pkgPathOf(cl.Call.StaticCallee()), "/document") {
+					return
+				}
+				if rt := typeShort(cl.Call.Args[0].Type()); rt != "document.PublicKey" && rt != "document.Service" {
+					return
+				}
+				n++
+				var follow func(v ssa.Value, d int)
+				follow = func(v ssa.Value, d int) {
+					if d > 3 || v.Referrers() == nil {
+						return
+					}
+					for _, r := range *v.Referrers() {
+						switch y := r.(type) {
+						case *ssa.MakeInterface:
+							follow(y, d+1)
+						case *ssa.ChangeType:
+							follow(y, d+1)
+						case *ssa.Call:
+							if g := y.Call.StaticCallee(); g != nil && inModule(g) {
+								bad = append(bad, fmt.Sprintf("%s at %s: the entry's object is handed to %s before it is stored", short(f.String()), c.pos(y.Pos()), short(g.String())))
+							}
+						}
+					}
+				}
+				follow(cl, 0)
+			})
+		}
+		c.Check("C14.X2", "entries-stored-as-they-are", n >= 2 && len(bad) == 0, 0, fmt.Sprintf("%d key / service objects taken from patch entries in the composer; none passes through a module function on its way into the document", n), bad...)
+	}
+	c.Min("C14.X2", 13)
 	// ---- K2 one decoder: a patch built by a constructor, the same patch parsed back from its bytes, and the document it
 	// is applied to must agree on how JSON values are represented (numbers as float64, objects as maps): every decode in
 	// the patch and document packages is a plain encoding/json.Unmarshal — no Decoder options (UseNumber, ...)
@@ -883,7 +918,7 @@ func (c *Ctx) composerSkeletons(rule string, handlers map[string]*ssa.Function) 
 								if si, isMap := c.isMapMembershipFn(g); isMap {
 									set = y.Call.Args[si]
 								} else if isM, _ := c.isMembershipFn(g); isM {
-									set = y.Call.Args[0]
+									set, _ = memberArgs(y)
 								}
 							}
 						}
@@ -1061,7 +1096,7 @@ func (c *Ctx) composerSkeletons(rule string, handlers map[string]*ssa.Function) 
 					n++
 				}
 			case *ssa.Store:
-				if _, _, ok := c.replaceByIDStore(x); ok {
+				if _, _, ok := c.replaceByIDStore(x); ok && (ascendingFromZero(x.Addr) || c.descendingToZero(x.Addr)) {
 					n++
 				}
 			}
@@ -1124,11 +1159,49 @@ func (c *Ctx) replacesByID(g *ssa.Function) bool {
 			return
 		}
 		n++
-		if l, v, ok2 := c.replaceByIDStore(st); ok2 && l == ssa.Value(g.Params[0]) && v == ssa.Value(g.Params[1]) {
+		// … and the search that leads to the store looks at every slot: the index runs over the whole list (an ascending
+		// range / loop from 0, or a descending loop from len-1 down to and including 0)
+		if l, v, ok2 := c.replaceByIDStore(st); ok2 && l == ssa.Value(g.Params[0]) && v == ssa.Value(g.Params[1]) && (ascendingFromZero(st.Addr) || c.descendingToZero(st.Addr)) {
 			good++
 		}
 	})
 	return n == 1 && good == 1
+}
+
+// descendingToZero: the index of the element address runs from len(list)-1 down to 0 inclusive:
+// for i := len(list) - 1; i >= 0; i-- (or i > -1).
+func (c *Ctx) descendingToZero(v ssa.Value) bool {
+	ia, ok := v.(*ssa.IndexAddr)
+	if !ok {
+		return false
+	}
+	phi, ok := ia.Index.(*ssa.Phi)
+	if !ok || len(phi.Edges) != 2 {
+		return false
+	}
+	okInit, okStep := false, false
+	for _, e := range phi.Edges {
+		if b, isB := e.(*ssa.BinOp); isB && b.Op == token.SUB && c.Path(b.Y, nil) == "1" {
+			if b.X == ssa.Value(phi) {
+				okStep = true
+			} else if c.Path(b.X, nil) == "len("+c.Path(ia.X, nil)+")" {
+				okInit = true
+			}
+		}
+	}
+	if !okInit || !okStep {
+		return false
+	}
+	// the loop condition keeps index 0 in
+	iff, isIf := phi.Block().Instrs[len(phi.Block().Instrs)-1].(*ssa.If)
+	if !isIf {
+		return false
+	}
+	bo, isB := iff.Cond.(*ssa.BinOp)
+	if !isB || bo.X != ssa.Value(phi) {
+		return false
+	}
+	return (bo.Op == token.GEQ && c.Path(bo.Y, nil) == "0") || (bo.Op == token.GTR && c.Path(bo.Y, nil) == "-1")
 }
 
 func boolResult(g *ssa.Function) bool {
@@ -1209,6 +1282,7 @@ func (c *Ctx) patchLiteral(v ssa.Value, env Env, depth int) (map[string]string, 
 		for _, r := range *x.Referrers() {
 			if mu, ok := r.(*ssa.MapUpdate); ok && mu.Map == ssa.Value(x) {
 				out[unquote(c.Path(mu.Key, env))] = unquote(c.Path(mu.Value, env))
+				out["type:"+unquote(c.Path(mu.Key, env))] = strings.Join(c.dynTypes(mu.Value, 0), "|")
 				n++
 			}
 		}
@@ -1224,6 +1298,18 @@ func (c *Ctx) patchLiteral(v ssa.Value, env Env, depth int) (map[string]string, 
 			return nil, 0, false
 		}
 		genv := c.calleeEnv(&x.Call, g, env)
+		// (the values the helper's parameters stand for, for questions about their dynamic type)
+		savedArgs := c.argOf
+		c.argOf = map[*ssa.Parameter]ssa.Value{}
+		for k, v := range savedArgs {
+			c.argOf[k] = v
+		}
+		for i, p := range g.Params {
+			if i < len(x.Call.Args) {
+				c.argOf[p] = x.Call.Args[i]
+			}
+		}
+		defer func() { c.argOf = savedArgs }()
 		var out map[string]string
 		cnt := 0
 		for _, r := range returnsOf(g) {
@@ -1442,6 +1528,9 @@ func (c *Ctx) jsonPatchFoldRule(rule string) {
 				if g := cl.Call.StaticCallee(); g != nil && inModule(g) && returnsError(g) {
 					cs := c.stringConstsDeep(g, 3)
 					if cs["copy"] && cs["from"] && cs["path"] && !cs["add"] && !cs["replace"] && !cs["test"] && !cs["value"] {
+						if !allowed[short(g.String())+"("] {
+							c.copyGuardRule(rule, g)
+						}
 						allowed[short(g.String())+"("] = true
 					}
 				}
@@ -1479,4 +1568,271 @@ func (c *Ctx) isParamOrConv(v ssa.Value) bool {
 		}
 	}
 	return false
+}
+
+// copyGuardRule: the guard against a copy of a value into itself refuses only when "from" is a PROPER prefix of "path":
+// the comparison of the two token counts lets the operation through exactly when from has at least as many tokens as
+// path (decided on the three orderings of the two counts) — a copy onto the same location, or between siblings of the
+// same depth, is an RFC 6902 operation the library applies.
+func (c *Ctx) copyGuardRule(rule string, g *ssa.Function) {
+	c.Analysed(g)
+	side := func(p string) string {
+		if !strings.HasPrefix(p, "len(") {
+			return ""
+		}
+		f, t := strings.Contains(p, `"from"`), strings.Contains(p, `"path"`)
+		switch {
+		case f && !t:
+			return "from"
+		case t && !f:
+			return "path"
+		}
+		return ""
+	}
+	acceptNow := func(b *ssa.BasicBlock) bool {
+		r, ok := b.Instrs[len(b.Instrs)-1].(*ssa.Return)
+		return ok && len(r.Results) == 1 && c.Path(r.Results[0], nil) == "nil"
+	}
+	n := 0
+	forEachInstr(g, func(in ssa.Instruction) {
+		bo, ok := in.(*ssa.BinOp)
+		if !ok || !isCmp(bo.Op) {
+			return
+		}
+		sx, sy := side(c.Path(bo.X, nil)), side(c.Path(bo.Y, nil))
+		if sx == "" || sy == "" || sx == sy {
+			return
+		}
+		n++
+		var iff *ssa.If
+		for _, r := range *bo.Referrers() {
+			if i, isIf := r.(*ssa.If); isIf {
+				iff = i
+			}
+		}
+		if iff == nil {
+			c.Check(rule, "copy-guard:token-count-test", false, bo.Pos(), "the comparison of the token counts does not decide a branch: not understood")
+			return
+		}
+		b := iff.Block()
+		a0, a1 := acceptNow(b.Succs[0]), acceptNow(b.Succs[1])
+		if a0 == a1 {
+			c.Check(rule, "copy-guard:token-count-test", false, bo.Pos(), "expected exactly one branch of the token-count test to let the operation through at once")
+			return
+		}
+		// orderings of (count(from) - count(path)) under which the letting-through branch is taken
+		var let []string
+		for _, o := range []int{-1, 0, 1} {
+			d := o // X - Y
+			if sx == "path" {
+				d = -o
+			}
+			var v bool
+			switch bo.Op {
+			case token.LSS:
+				v = d < 0
+			case token.LEQ:
+				v = d <= 0
+			case token.GTR:
+				v = d > 0
+			case token.GEQ:
+				v = d >= 0
+			case token.EQL:
+				v = d == 0
+			case token.NEQ:
+				v = d != 0
+			}
+			if v == a0 {
+				let = append(let, map[int]string{-1: "from<path", 0: "from=path", 1: "from>path"}[o])
+			}
+		}
+		c.Check(rule, "copy-guard:token-count-test", eqStrs(let, []string{"from=path", "from>path"}), bo.Pos(), fmt.Sprintf("a copy is let through without comparing tokens when %v (expected exactly [from=path from>path]: only a proper prefix can contain its destination)", let))
+	})
+	if n == 0 {
+		c.Check(rule, "copy-guard:token-count-test", false, g.Pos(), "no comparison of the token counts of \"from\" and \"path\" in the copy guard: shape not understood")
+	}
+}
+
+// dynTypes: the dynamic types an interface value may carry, followed through conversions to interface, φ and the
+// accepting exits of module helpers ("?" when it cannot be told).
+func (c *Ctx) dynTypes(v ssa.Value, d int) []string {
+	set := map[string]bool{}
+	var visit func(v ssa.Value, d int)
+	visit = func(v ssa.Value, d int) {
+		if d > 5 {
+			set["?"] = true
+			return
+		}
+		if p, isP := v.(*ssa.Parameter); isP {
+			if a, known := c.argOf[p]; known {
+				visit(a, d+1)
+				return
+			}
+		}
+		if !types.IsInterface(v.Type()) {
+			set[types.TypeString(v.Type(), nil)] = true
+			return
+		}
+		switch x := v.(type) {
+		case *ssa.MakeInterface:
+			set[types.TypeString(x.X.Type(), nil)] = true
+		case *ssa.Phi:
+			for _, e := range x.Edges {
+				visit(e, d+1)
+			}
+		case *ssa.Const:
+			if x.IsNil() {
+				set["nil"] = true
+			} else {
+				set["?"] = true
+			}
+		case *ssa.Extract:
+			if cl, ok := x.Tuple.(*ssa.Call); ok {
+				if g := cl.Call.StaticCallee(); g != nil && inModule(g) && g.Blocks != nil {
+					for _, r := range successReturns(g) {
+						if x.Index < len(r.Results) {
+							visit(returnedValue(r, x.Index), d+1)
+						}
+					}
+					return
+				}
+			}
+			set["?"] = true
+		case *ssa.Call:
+			if g := x.Call.StaticCallee(); g != nil && inModule(g) && g.Blocks != nil {
+				for _, r := range successReturns(g) {
+					if len(r.Results) > 0 {
+						visit(returnedValue(r, 0), d+1)
+					}
+				}
+				return
+			}
+			set["?"] = true
+		case *ssa.Lookup:
+			// a member of a generic document that a decoding function handed back (its members are what the JSON
+			// decoder produced)
+			if mt, isM := x.X.Type().Underlying().(*types.Map); isM && isEmptyInterface(mt.Elem()) {
+				src := x.X
+				if ex, isE := src.(*ssa.Extract); isE {
+					src = ex.Tuple
+				}
+				if cl, isC := src.(*ssa.Call); isC && len(cl.Call.Args) == 1 && types.TypeString(cl.Call.Args[0].Type(), nil) == "[]byte" {
+					set["json"] = true
+					return
+				}
+			}
+			set["?"] = true
+		case *ssa.UnOp:
+			if al, isA := x.X.(*ssa.Alloc); isA && x.Op == token.MUL {
+				// a local decoded into by json.Unmarshal(&v) with v of interface / generic type: generic JSON
+				if decodedFrom(al) != nil {
+					set["decoded:"+types.TypeString(al.Type().Underlying().(*types.Pointer).Elem(), nil)] = true
+					return
+				}
+			}
+			set["?"] = true
+		default:
+			set["?"] = true
+		}
+	}
+	visit(v, d)
+	var out []string
+	for k := range set {
+		out = append(out, k)
+	}
+	sort.Strings(out)
+	return out
+}
+
+// applyPatchesFoldRule: ApplyPatches is a left fold — a deep copy of the document parameter, then one loop over the
+// patches parameter in index order threading the result, the final result returned, a handler error aborts.
+func (c *Ctx) applyPatchesFoldRule(rule string) {
+	apf := c.Fn(pComposer, "applyPatch")
+	if apf == nil {
+		c.Unresolved(rule, "doccomposer.applyPatch")
+		return
+	}
+	ap := c.Method(pComposer, "DocumentComposer", "ApplyPatches")
+	if ap == nil {
+		c.Unresolved(rule, "ApplyPatches")
+	} else {
+		c.Analysed(ap)
+		// the exported method may be a thin wrapper of the function that does the work: that function is read instead,
+		// its parameters named as the method names them
+		if g, wenv := c.thinWrapperTarget(ap); g != nil && len(callsTo(ap, apf)) == 0 {
+			ap = g
+			c.Analysed(ap)
+			c.baseEnv = wenv
+			defer func() { c.baseEnv = nil }()
+		}
+		aps := callsTo(ap, apf)
+		okFold, okCopy := false, false
+		var copyFn *ssa.Function
+		if len(aps) == 1 {
+			a0 := aps[0].Call.Args[0]
+			phi, isPhi := a0.(*ssa.Phi)
+			// the running result kept in a local cell (its address was handed to json.Unmarshal): loads and stores
+			// instead of a φ
+			if ld, isLd := a0.(*ssa.UnOp); isLd && ld.Op == token.MUL {
+				if al, isAl := ld.X.(*ssa.Alloc); isAl {
+					stepOnly := true
+					for _, r := range *al.Referrers() {
+						if st, isS := r.(*ssa.Store); isS && st.Addr == ssa.Value(al) {
+							if k, isK := st.Val.(*ssa.Const); isK && k.IsNil() {
+								continue
+							}
+							if st.Val != extractOf(aps[0], 0) {
+								stepOnly = false
+							}
+						}
+					}
+					if src, fn, ok := c.jsonRoundTripCell(ap, al); ok && src == "$1" && stepOnly {
+						okCopy, copyFn = true, fn
+					}
+					if stepOnly && c.Path(aps[0].Call.Args[1], nil) == "$2[ι]" && ascendingFromZero(aps[0].Call.Args[1]) {
+						okFold = true
+						for _, r := range successReturns(ap) {
+							if l2, isL2 := r.Results[0].(*ssa.UnOp); !isL2 || l2.X != ssa.Value(al) {
+								okFold = false
+							}
+						}
+					}
+				}
+			}
+			if isPhi && len(phi.Edges) == 2 {
+				// one edge is the previous step's result, the other the starting value: a JSON round trip of the document parameter
+				var start ssa.Value
+				n := 0
+				for _, e := range phi.Edges {
+					if e == extractOf(aps[0], 0) {
+						n++
+					} else {
+						start = e
+					}
+				}
+				if n == 1 && start != nil {
+					if src, fn, ok := c.jsonRoundTripOf(ap, start, nil, 0); ok && src == "$1" {
+						okCopy, copyFn = true, fn
+					}
+					if c.Path(aps[0].Call.Args[1], nil) == "$2[ι]" && ascendingFromZero(aps[0].Call.Args[1]) {
+						okFold = true
+						for _, r := range successReturns(ap) {
+							if r.Results[0] != ssa.Value(phi) {
+								okFold = false
+							}
+						}
+					}
+				}
+			}
+		}
+		c.Check(rule, "fold:starts-from-deep-copy", okCopy, ap.Pos(), "the fold starts from a JSON round trip (json.Unmarshal of json.Marshal) of the document parameter, made in ApplyPatches or in a helper")
+		c.Check(rule, "fold:threads-result-in-index-order", okFold, ap.Pos(), "one loop over the patches parameter in index order; each step receives the previous result; the last result is returned")
+		c.CheckGuardLoop(rule, "fold:handler-error-aborts", ap, nil, callTo("applyPatch ok", apf))
+		jsonU := c.ExtFn("encoding/json", "Unmarshal")
+		if copyFn != nil && jsonU != nil {
+			c.CheckGuard(rule, "deepCopy:decode-error-propagated", copyFn, nil, callTo("json.Unmarshal of the encoded document", jsonU))
+		} else {
+			c.Check(rule, "deepCopy:decode-error-propagated", false, ap.Pos(), "no JSON round trip of the document found")
+		}
+	}
 }
